@@ -787,6 +787,115 @@ class Gen:
         return out
 
 
+    def thread_cases(self, n):
+        """T cases (round 5): the thread loop of into_process_state — several threads (duplicate ids, threads without context,
+        without stack bytes), the dump-writer / requesting thread of a breakpad-info stream, an exception stream whose thread is
+        present / missing / has its own context or none, stack pointers inside the thread's own stack (with 0..9 bytes left:
+        the 8-byte probe), inside another region, in no region; regions adjacent / overlapping / at the top of the address
+        space; MemoryList and Memory64List; modules without symbols (scan and frame-pointer frames) and overlapping unloaded
+        modules. Compared with the extracted model of coq/C03/ProcessModel.v (which runs C05's walker model)."""
+        rng = self.rng
+        out = []
+        tcpus = ["amd64"] * 5 + ["x86"] * 3 + ["arm64"] * 2 + ["arm", "arm64old", "mips", "mips", "ppc", "sparc"]   # dumpspec.rs writes mips64 contexts the thread reader does not decode: D cases only
+        for _ in range(n):
+            cpu = rng.choice(tcpus)
+            bits, ips, sps, fps, lrs, _ = CPUS[cpu]
+            if cpu == "sparc":
+                bits = 32          # CONTEXT_SPARC's registers are written through set_register as u64, the dump is small: keep addresses low
+            M = (1 << bits) - 1
+            w = bits // 8
+            os_ = rng.choice(["linux", "win", "mac", "android", "linux", "win"] + ([] if cpu == "arm" else ["ios"]))
+            toks = ["cpu=%s" % cpu, "os=%s" % os_]
+            mem64 = rng.chance(1, 4)
+            if mem64:
+                toks.append("mem64=1")
+            mods = []
+            for b in rng.choice([[], [0x400000], [0x400000, 0x500000], [0x400000, 0x408000]]):
+                mods.append((b, rng.choice([0x1000, 0x10000, 0x8000])))
+            rets = [b + rng.below(sz) for (b, sz) in mods for _ in range(3)] + [0x400010, 0x600020, 0x300000]
+            top = (M - 63) if rng.chance(1, 6) else 0x30000
+            bases = [0x10000, 0x10040, 0x10020, 0x20000, 0x20100, top]
+            sizes = [0, 1, 4, 7, 8, 9, 15, 16, 24, 32, 64, 64, 128, 256]
+
+            def lace(base, size):
+                style = rng.below(4)
+                b = bytearray()
+                for i in range(size // w):
+                    a = base + i * w
+                    if style == 0:
+                        v = 0
+                    elif style == 1:
+                        v = rng.choice(rets)
+                    elif style == 2:
+                        v = (a + 2 * w * rng.range(1, 3)) if i % 2 == 0 else rng.choice(rets)
+                    else:
+                        v = rng.choice(rets + [a + w, a, 0, M, base + size])
+                    b += le(v & M, w)
+                b += bytes(size - len(b))
+                return bytes(b)
+
+            regions = []          # (base, size) of everything in the memory list, for aiming stack pointers
+            tids = [1, 2, 3, 4, 7]
+            nthreads = rng.range(1, 5)
+            threads = []
+            for _t in range(nthreads):
+                tid = rng.choice(tids)
+                base = rng.choice(bases)
+                size = rng.choice(sizes)
+                if base + size > M + 1:
+                    size = M + 1 - base
+                threads.append((tid, base, size))
+                regions.append((base, size))
+            extra = []
+            for _r in range(rng.below(4)):
+                base = rng.choice(bases + [threads[0][1] + max(0, threads[0][2] - rng.below(9))])
+                size = rng.choice(sizes)
+                if base + size > M + 1:
+                    size = M + 1 - base
+                extra.append((base, size))
+                regions.append((base, size))
+
+            def aim():
+                k = rng.below(8)
+                if k <= 4 and regions:
+                    b, sz = rng.choice(regions)
+                    return (b + max(0, sz - rng.choice([0, 1, 4, 7, 8, 9, 16, sz]))) & M
+                if k == 5 and regions:
+                    b, sz = rng.choice(regions)
+                    return (b + sz + rng.choice([0, 1, 8])) & M
+                return rng.choice([0, 8, M, M - 7, 0x7fff0000, 0x10000 - 1])
+
+            def ctx():
+                ip = rng.choice(rets + [0, 1, M, 0x400000])
+                sp = aim()
+                fp = aim() if rng.chance(3, 4) else rng.choice([0, M, sp])
+                lr = rng.choice(rets + [0])
+                kv = ["%s=%d" % (ips[0], ip & M), "%s=%d" % (sps[0], sp)]
+                if fps:
+                    kv.append("%s=%d" % (fps[0], fp))
+                if lrs and cpu not in ("ppc", "ppc64"):
+                    kv.append("%s=%d" % (lrs[0], lr & M))
+                return ",".join(kv)
+
+            for (tid, base, size) in threads:
+                regs = "-" if rng.chance(1, 6) else ctx()
+                toks.append("T=%d:%d:%s:%s" % (tid, base, hx(lace(base, size)), regs))
+            if rng.chance(2, 3):
+                xt = rng.choice([t[0] for t in threads] + [99])
+                toks.append("X=%d:11:0:0:0:0:0:%s" % (xt, "-" if rng.chance(1, 4) else ctx()))
+            if rng.chance(1, 3):
+                toks.append("B=%d:%d" % (rng.choice(tids + [99]), rng.choice(tids + [99])))
+            for i, (b, sz) in enumerate(mods):
+                toks.append("M=%d:%d:%s:-" % (b, sz, hx(("/m/mod%d" % i).encode())))
+            for i in range(rng.below(4)):
+                b = rng.choice([0x400000, 0x404000, 0x600000, 0x300000, 0x5ff000])
+                toks.append("U=%d:%d:%s" % (b, rng.choice([0x1000, 0x8000, 0x100000, 0x300000]), hx(("/u/unl%d" % i).encode())))
+            for (b, sz) in extra:
+                toks.append("R=%d:%s" % (b, hx(lace(b, sz))))
+            out.append("T " + " ".join(toks))
+        self.dist["thread_loop_cases"] = n
+        return out
+
 
 # ------------------------------------------------------------------ exhaustive blocks
 MODRM_FORMS = [
@@ -958,6 +1067,7 @@ class C03(PropBase):
         g = Gen(rng)
         nd, nf, ns = (9000, 1500, 6000) if tier == "quick" else (120000, 12000, 60000)
         cases = g.site_cases(ns)
+        cases += g.thread_cases(1500 if tier == "quick" else 20000)
         # exhaustive block 1: amd64 instruction bytes at the crashing rip, generated from the opcode / ModRM table —
         # every opcode byte of the one-byte and 0f maps x every ModRM reg field (group opcodes select the operation with
         # it: 80/81/83, c0/c1/d0-d3, f6/f7 /0../7, fe/ff, 0f 00/01/ba/c7 ...) x operand forms, with REX.W and without
@@ -1001,6 +1111,8 @@ class C03(PropBase):
         if ans.startswith("P;;"):
             return "panic while processing or rendering: " + ans[3:240]
         kind = case[0]
+        if kind == "T":
+            return self.oracle_threads(case, ans)
         if kind in "LGSJAIU":
             if not ans.startswith(kind + " ") and ans != kind:
                 return "unparseable site answer " + ans[:100]
@@ -1038,7 +1150,41 @@ class C03(PropBase):
                 return "%d symbol-provider calls for %d frames of %d threads (bound: %d per frame)" % (calls, frames, thr, SYM_CALLS_PER_FRAME)
         return None
 
+    def oracle_threads(self, case, ans):
+        """C03 judged on a T answer without the model: one call stack per thread-list entry, in order; no frames for the
+        dump-writer thread or a thread without context; every thread within (largest memory region of the dump) + 2 frames
+        (the exact bound, for the region actually chosen, is the model's: c03_process_threads_total); a CPU without unwinder
+        yields at most the context frame; requesting_thread indexes an existing call stack."""
+        if not ans.startswith("T req="):
+            return "unparseable thread-loop answer " + ans[:100]
+        toks = case.split()[1:]
+        tids = [int(t[2:].split(":")[0]) for t in toks if t.startswith("T=")]
+        sizes = [0]
+        for t in toks:
+            if t.startswith("T=") or t.startswith("R="):
+                b = t.split(":")[2 if t.startswith("T=") else 1]
+                sizes.append(0 if b == "-" else (int(b[1:]) if b.startswith("z") else len(b) // 2))
+        head, _, body = ans.partition(" ")[2].partition(" ")
+        stacks = [x.split(":") for x in body.split(";")] if body else []
+        if [int(x[0]) for x in stacks] != tids:
+            return "call stacks %s do not correspond to the thread list %s" % ([x[0] for x in stacks], tids)
+        req = head[4:]
+        if req != "-" and int(req) >= len(stacks):
+            return "requesting_thread %s is out of bounds (%d call stacks)" % (req, len(stacks))
+        nounw = toks[0] in ("cpu=ppc", "cpu=ppc64", "cpu=sparc")
+        for x in stacks:
+            nfr = len(x[2].split(",")) if x[2] else 0
+            if x[1] in ("1", "2") and nfr:
+                return "thread %s has CallStackInfo %s but %d frames" % (x[0], x[1], nfr)
+            if nfr > max(sizes) + 2:
+                return "thread %s was walked for %d frames; the largest memory region has %d bytes" % (x[0], nfr, max(sizes))
+            if nounw and nfr > 1:
+                return "thread %s of a %s dump has %d frames although that CPU has no unwinder" % (x[0], toks[0][4:], nfr)
+        return None
+
     def nontrivial(self, case, ans):
+        if case[0] == "T":
+            return ans.startswith("T req=") and "/" in ans
         if case[0] in "LGSJAIU":
             return not ans.startswith("P;;")
         return " r=ok " in ans and " thr=0 " not in ans
